@@ -510,6 +510,9 @@ func main() {
 	if len(samples) == 0 {
 		cov["samples"] = []any{"(no sample recorded)"}
 	}
+	if tier == "thorough" && os.Getenv("VERIF_NORACE") == "" {
+		cov["race_pass"] = racePass(tier, mine)
+	}
 	ev := map[string]any{
 		"property_id": id, "tier": tier, "seed": seed, "level": "model_checking", "coverage": cov,
 		"assumptions": []string{
@@ -541,6 +544,93 @@ func main() {
 		fmt.Fprintf(os.Stderr, "VACUOUS property=%s: fewer than two distinct outcomes were observed\n", id)
 		os.Exit(2)
 	}
+}
+
+// racePass (E3, thorough tier): the same harness bodies run free under the race detector.
+// Races whose two access sites are both in centrifuge code are listed in the evidence; races
+// that involve harness code (its unsynchronised bookkeeping is only safe under the cooperative
+// scheduler) are counted and ignored. A race is not a property violation: it marks data that
+// flows between threads outside the scheduler's model.
+func racePass(tier string, mine []*harness) map[string]any {
+	cmd := exec.Command(filepath.Join(verifRoot, "bin", "vbuild"))
+	cmd.Env = append(env(), "VBUILD_RACE=1")
+	out, err := cmd.Output()
+	if err != nil {
+		return map[string]any{"error": "race build failed: " + err.Error()}
+	}
+	bin := filepath.Join(filepath.Dir(strings.TrimSpace(string(out))), "vmain_race")
+	product := map[string]int{}
+	harnessOnly, iterations := 0, 0
+	var ran []string
+	for _, h := range mine {
+		if h.Kind != "sched" {
+			continue
+		}
+		ctx, cancel := context.WithTimeout(context.Background(), 240*time.Second)
+		c := exec.CommandContext(ctx, bin, "race", "-harness", h.Name, "-tier", "quick", "-n", "3", "-maxexec", "6")
+		c.Env = append(env(), "GORACE=halt_on_error=0 history_size=2")
+		var eb, ob bytes.Buffer
+		c.Stderr, c.Stdout = &eb, &ob
+		_ = c.Run()
+		cancel()
+		ran = append(ran, h.Name)
+		for _, l := range strings.Split(ob.String(), "\n") {
+			if i := strings.Index(l, "iterations-completed="); i >= 0 {
+				n, _ := strconv.Atoi(strings.TrimSpace(l[i+len("iterations-completed="):]))
+				iterations += n
+			}
+		}
+		for _, blk := range strings.Split(eb.String(), "==================") {
+			if !strings.Contains(blk, "WARNING: DATA RACE") {
+				continue
+			}
+			var sites []string
+			lines := strings.Split(blk, "\n")
+			for i := 0; i < len(lines); i++ {
+				l := lines[i]
+				if strings.HasPrefix(l, "Read at ") || strings.HasPrefix(l, "Write at ") || strings.HasPrefix(l, "Previous read at ") || strings.HasPrefix(l, "Previous write at ") || strings.HasPrefix(l, "Previous atomic") || strings.HasPrefix(l, "Atomic") {
+					site := "?"
+					for j := i + 1; j < len(lines) && strings.TrimSpace(lines[j]) != ""; j++ {
+						f := strings.TrimSpace(lines[j])
+						if !strings.HasPrefix(f, "/") {
+							continue
+						}
+						if strings.Contains(f, "/internal/zzverif/") {
+							continue
+						}
+						if k := strings.Index(f, " +0x"); k > 0 {
+							f = f[:k]
+						}
+						site = f
+						break
+					}
+					sites = append(sites, site)
+				}
+			}
+			isHarness := false
+			for _, s := range sites {
+				if strings.Contains(s, "zz_verif_") || s == "?" {
+					isHarness = true
+				}
+			}
+			if isHarness || len(sites) < 2 {
+				harnessOnly++
+				continue
+			}
+			for i := range sites {
+				sites[i] = strings.TrimPrefix(sites[i], "/repo/")
+			}
+			sort.Strings(sites)
+			product[strings.Join(sites[:2], " <-> ")]++
+		}
+	}
+	var pl []string
+	for k, n := range product {
+		pl = append(pl, fmt.Sprintf("%s (x%d)", k, n))
+	}
+	sort.Strings(pl)
+	return map[string]any{"harnesses": ran, "iterations_completed": iterations, "races_between_centrifuge_sites": pl, "races_involving_harness_code_ignored": harnessOnly,
+		"note": "free-running -race pass of the same harness bodies (real goroutines, real clock, oracles off); supporting evidence for the assumption that threads communicate only through scheduler-visible operations"}
 }
 
 func firstLine(s string) string {
